@@ -1401,7 +1401,7 @@ theorem v2_validateWithTimeChecks (opq : V2.Opq) (hAcct : ∀ x, opq.nkeys_IsVal
 theorem v2_importValidate (cr : Crypto) (opq : V2.Opq)
     (hAtoi : ∀ x, opq.strconv_Atoi x = atoi x)
     (hAcct : ∀ x, opq.nkeys_IsValidPublicAccountKey x = validAcct x)
-    (hDec : ∀ tok, opq.DecodeActivationClaims tok =
+    (hDec : ∀ tok, V2.DecodeActivationClaims tok opq =
       some (match decodeTyped .activation cr tok with
             | .ok c => (some (V2.T_ActivationClaims.ofVal c.val), false)
             | .error _ => (none, true)))
@@ -1500,7 +1500,7 @@ theorem v2_imports_loop (cr : Crypto) (opq : V2.Opq)
     (hAtoi : ∀ x, opq.strconv_Atoi x = atoi x)
     (hAcct : ∀ x, opq.nkeys_IsValidPublicAccountKey x = validAcct x)
     (hToSub : ∀ x, V2.RenamingSubject_ToSubject x opq = some (renamingToSubject x))
-    (hDec : ∀ tok, opq.DecodeActivationClaims tok =
+    (hDec : ∀ tok, V2.DecodeActivationClaims tok opq =
       some (match decodeTyped .activation cr tok with
             | .ok c => (some (V2.T_ActivationClaims.ofVal c.val), false)
             | .error _ => (none, true)))
@@ -1598,7 +1598,7 @@ theorem v2_importsValidate (cr : Crypto) (opq : V2.Opq)
     (hAtoi : ∀ x, opq.strconv_Atoi x = atoi x)
     (hAcct : ∀ x, opq.nkeys_IsValidPublicAccountKey x = validAcct x)
     (hToSub : ∀ x, V2.RenamingSubject_ToSubject x opq = some (renamingToSubject x))
-    (hDec : ∀ tok, opq.DecodeActivationClaims tok =
+    (hDec : ∀ tok, V2.DecodeActivationClaims tok opq =
       some (match decodeTyped .activation cr tok with
             | .ok c => (some (V2.T_ActivationClaims.ofVal c.val), false)
             | .error _ => (none, true)))
@@ -1849,7 +1849,7 @@ theorem v2_accountBodyValidate (env : VEnv) (cr : Crypto) (opq : V2.Opq)
     (hUser : ∀ x, opq.nkeys_IsValidPublicUserKey x = validUser x)
     (hCurve : ∀ x, opq.nkeys_IsValidPublicCurveKey x = validCurve x)
     (hToSub : ∀ x, V2.RenamingSubject_ToSubject x opq = some (renamingToSubject x))
-    (hDec : ∀ tok, opq.DecodeActivationClaims tok =
+    (hDec : ∀ tok, V2.DecodeActivationClaims tok opq =
       some (match decodeTyped .activation cr tok with
             | .ok c => (some (V2.T_ActivationClaims.ofVal c.val), false)
             | .error _ => (none, true)))
@@ -1951,7 +1951,7 @@ theorem v2_accountClaimsValidate (env : VEnv) (cr : Crypto) (opq : V2.Opq)
     (hUser : ∀ x, opq.nkeys_IsValidPublicUserKey x = validUser x)
     (hCurve : ∀ x, opq.nkeys_IsValidPublicCurveKey x = validCurve x)
     (hToSub : ∀ x, V2.RenamingSubject_ToSubject x opq = some (renamingToSubject x))
-    (hDec : ∀ tok, opq.DecodeActivationClaims tok =
+    (hDec : ∀ tok, V2.DecodeActivationClaims tok opq =
       some (match decodeTyped .activation cr tok with
             | .ok c => (some (V2.T_ActivationClaims.ofVal c.val), false)
             | .error _ => (none, true)))
@@ -2248,7 +2248,7 @@ structure OpqOk (env : VEnv) (cr : Crypto) (opq : V2.Opq) : Prop where
   op : ∀ x, opq.nkeys_IsValidPublicOperatorKey x = validOp x
   server : ∀ x, opq.nkeys_IsValidPublicServerKey x = validServer x
   curve : ∀ x, opq.nkeys_IsValidPublicCurveKey x = validCurve x
-  dec : ∀ tok, opq.DecodeActivationClaims tok =
+  dec : ∀ tok, V2.DecodeActivationClaims tok opq =
       some (match decodeTyped .activation cr tok with
             | .ok c => (some (V2.T_ActivationClaims.ofVal c.val), false)
             | .error _ => (none, true))
@@ -2547,8 +2547,7 @@ theorem gen_decode_authentic (opq : V2.Opq) (tok : Str) (c : V2.I_Claims)
 /-- non-vacuity: an environment in which the translated `Decode` accepts a token (so the hypothesis of
 `gen_decode_accepts` is satisfiable, and the conclusion's verification text is the `hd.p` one) -/
 def demoOpq : V2.Opq :=
-  { DecodeActivationClaims := fun _ => none,
-    json_UnmarshalHeader := fun _ _ => ({ f_Type := "JWT".toList, f_Algorithm := "ed25519-nkey".toList }, false),
+  { json_UnmarshalHeader := fun _ _ => ({ f_Type := "JWT".toList, f_Algorithm := "ed25519-nkey".toList }, false),
     decodeString := fun _ => some ([], false),
     json_Unmarshalv1OperatorClaims := fun _ x => (x, true), json_UnmarshalOperatorClaims := fun _ x => (x, true),
     json_Unmarshalv1AccountClaims := fun _ x => (x, true), json_UnmarshalAccountClaims := fun _ x => (x, false),
@@ -2800,6 +2799,21 @@ theorem gen_decodeUser (opq : V2.Opq) (tok : Str) (u : V2.T_UserClaims) (e : Boo
     (h : V2.DecodeUserClaims tok opq = some (some u, e)) :
     e = false ∧ V2.Decode tok opq = some (some (.UserClaims u), false) := by
   unfold V2.DecodeUserClaims at h
+  rcases hd : V2.Decode tok opq with _ | ⟨cl, er⟩
+  · simp [hd] at h
+  · cases er <;> simp [hd] at h
+    rcases cl with _ | c
+    · simp at h
+    · cases c <;> simp at h
+      obtain ⟨h1, h2⟩ := h
+      subst h1; subst h2; exact ⟨rfl, rfl⟩
+
+/-- the activation decoder — the one `Import.Validate` reads embedded tokens with — is translated too, so an import's
+token goes through the translated `Decode` (and with it the whole authenticity chain) -/
+theorem gen_decodeActivation (opq : V2.Opq) (tok : Str) (u : V2.T_ActivationClaims) (e : Bool)
+    (h : V2.DecodeActivationClaims tok opq = some (some u, e)) :
+    e = false ∧ V2.Decode tok opq = some (some (.ActivationClaims u), false) := by
+  unfold V2.DecodeActivationClaims at h
   rcases hd : V2.Decode tok opq with _ | ⟨cl, er⟩
   · simp [hd] at h
   · cases er <;> simp [hd] at h
